@@ -1,55 +1,361 @@
 """C12 — serialising a graph and reading it back gives an equal graph, nothing lost.
 
+Translator `export_params`: graph/export.py + graph/nodes.py (ast, cross-checked with inspect.signature of the
+imported functions) -> lean/EkwVerif/Gen/ExportParams.lean: the functions through which `deserialise` hands a
+node's inputs on as **kwargs, with their keyword-bindable parameter names (an input of such a name makes the
+call raise TypeError).  Props/C12 decides on that table that only names of `Node.__init__` are reserved.
 Tie: the real serialise / deserialise / to_json / from_json (graph/export.py) and
 Cascade.serialise / Cascade.from_serialised (dill file) against Model/Export.lean on random DAGs
-and on graphs built by random fluent programs: reachable node set, serialised dict, its JSON image,
-the round-tripped node records, the sinks chosen by deserialise, Graph.__eq__ both ways; plus
-deserialise on hand-damaged dicts (missing parent entry -> KeyError, missing output -> AttributeError).
+and on graphs built by random fluent programs: reachable node set, serialised dict, its JSON image (or TypeError),
+the round-tripped node records of the dict, JSON, file and inverting-node-factory paths, the sinks chosen by
+deserialise, Graph.__eq__ both ways on every path; plus deserialise on hand-damaged dicts (missing parent entry ->
+KeyError, missing output -> AttributeError, input named like a parameter on the call path -> TypeError or success).
+Opaque payload objects (functions, objects with a serialise() method) are numbered by IDENTITY per case, so that
+the comparison sees whether the very same object, a copy, or another object came back.
 Oracle: from the property text only: after each round trip (dict, JSON, file) the result, traversed
 by the oracle's own walk from the result's sinks, has exactly the original's nodes with the same
-outputs, inputs and payloads (JSON: for payloads JSON represents faithfully), and `==` holds.
+outputs, inputs and payloads (JSON: for payloads JSON represents faithfully), `==` holds, and `==` says what
+Python's own comparison of the payloads says.
 """
 import functools
 import glob
 import json
+import math
 import os
+import sys
 import tempfile
+import types
 
 PROPERTY = "C12"
-LEVEL_TEXT = ("Lean theorems over Model/Export.lean (Node.serialise/Output.serialise, serialise, deserialise incl. the choice of sinks, JSON "
-              "normalisation, Graph.__eq__): for every graph with unique names given as the topologically ordered list of its nodes - any number "
-              "of nodes, sinks, multi-output nodes, shared parents, terminal nodes with or without outputs, the empty graph - deserialise(serialise g) "
-              "succeeds, rebuilds exactly the node records (names, outputs, inputs, payloads), all of them reachable from the chosen sinks, and is == g "
-              "in both directions; through JSON the same with tuple payloads read back as lists, hence identical and == for JSON-faithful payloads. "
-              "Unbounded in graph size and payload depth; tied to the real export functions by a correspondence check on random DAGs and fluent graphs.")
-LEVEL_NOTE = ("modelled, not verified: graph/export.py serialise/deserialise/to_json/from_json, nodes.py Node.serialise/Output.serialise, graph.py "
-              "Graph.__eq__. Graph.nodes() is modelled by its result set (reachability sweep over a topological order); DFS order, "
-              "graphlib.TopologicalSorter order and dict order are not modelled (nothing in the property depends on them; results are compared sorted by "
-              "name). Object identity is a name (the property's unique-names hypothesis). json and dill are trusted; the dill file path "
-              "(Cascade.serialise/from_serialised) and payloads holding callables (fluent graphs) are sampled, callables being opaque atoms in the model.")
-TECHNIQUE = "Lean 4 proof (induction over the topological node list; reachability of every node from the terminal nodes) + differential correspondence with the real export functions"
+LEVEL_TEXT = ("Lean theorems over Model/Export.lean (Node.serialise incl. the payload's serialise() hook, Output.serialise, serialise, deserialise "
+              "incl. the choice of sinks and the TypeError for inputs named like a keyword-bindable parameter on the call path, to_json/from_json "
+              "incl. json's key and tuple normalisation and its TypeError, Cascade.serialise/from_serialised with dill as a parameter, Graph.__eq__ "
+              "with Python's NaN and identity semantics): for every graph with unique names given as the topologically ordered list of its nodes "
+              "- any number of nodes, sinks, multi-output nodes, shared parents, terminal nodes with or without outputs, any input names a node "
+              "can have (e.g. 'data', 'node_factory'), the empty graph - each of the three round trips succeeds (JSON: iff json.dumps accepts the "
+              "payloads), rebuilds every node record with its name, outputs and inputs and with the payload mapped by the path (dict: the "
+              "payload itself, or the result of its serialise() method; JSON: that, normalised; file: that, through dill), all nodes reachable "
+              "from the chosen sinks (c12_nothing_lost, c12_json, c12_file, all full strength), and `==` in either direction is EXACTLY the "
+              "conjunction of the payload comparisons (c12_dict_exact and the same clauses of c12_json, c12_file). Hence identical records and "
+              "`==` through JSON for JSON-faithful payloads (c12_json); through the dict unless a payload is a NaN or has a serialise() method "
+              "(c12_dict_partial; both exclusions are needed: c12_dict_full_fails, c12_dict_hook_full_fails; an inverting node factory restores "
+              "such payloads: c12_hook_factory); through the file when dill behaves structurally (dillPV) unless a payload holds a NaN or an object "
+              "dill pickles by value, e.g. a lambda (c12_file_partial, c12_file_full_fails). c12_reserved_subset is decided on the table "
+              "generated from the source. Unbounded in graph size and payload depth; tied to the real functions by a correspondence check on "
+              "random DAGs and fluent graphs.")
+LEVEL_NOTE = ("modelled, not verified: graph/export.py serialise/deserialise/to_json/from_json/_deserialise_node/default_node_factory, nodes.py "
+              "Node.serialise/Output.serialise/get_output, graph.py Graph.__eq__, workflows/__init__.py Cascade.serialise/from_serialised. "
+              "Graph.nodes() is modelled by its result set (reachability sweep over a topological order); DFS order, graphlib.TopologicalSorter "
+              "order and dict order are not modelled (nothing in the property depends on them; results are compared sorted by name). Object "
+              "identity of nodes is a name (the property's unique-names hypothesis). json is trusted on the payload universe of the model; dill is "
+              "a PARAMETER of c12_file (any map on payload values; names, output lists and references are assumed to be rebuilt exactly) and "
+              "its structural behaviour dillPV (by-reference objects identical, by-value objects new) is sampled by the tie. Deserialised fluent "
+              "graphs are bare graph.Node objects: the fluent Node class, its `attributes` dict and `_for_copy` tuple are not serialised; the "
+              "property names nodes, outputs, inputs and payloads only, so this is measured (distribution key fluent-node-class-not-restored), not "
+              "demanded. bool/int/float cross-type equality and dict order in payload `==` are not modelled (stricter than Python, never needed "
+              "for a round trip).")
+TECHNIQUE = ("Lean 4 proof (induction over the topological node list; reachability of every node from the terminal nodes; exact characterisation "
+             "of Graph.__eq__ on a graph and its image) + AST translator of the keyword-bindable parameter names on the de-serialisation call "
+             "path + differential correspondence with the real export functions")
 LEAN_PROPS = ["EkwVerif.Props.C12"]
 LEAN_DRIVERS = ["C12"]
 RULE = ("random DAG specs of 0-12 nodes (default-output, output-less and multi-output nodes; 0-3 inputs each from any earlier node's outputs, so "
-        "parents are shared; odd names; in 55% of the specs node names, output names and input-parameter names come from ONE pool of 26 names "
-        "(incl. '0' = DEFAULT_OUTPUT, '1', '__default__', dotted 'stats.mean' next to 'stats'/'mean', prefixes/suffixes 'n','n1','n10'), node "
-        "names being preferably the output names earlier nodes declare and references preferring named outputs, names kept unique; payloads None/int/str/bool/list/tuple/dict nested to depth 3; sinks = all terminal nodes, a subset of them, "
-        "or terminals plus inner nodes), graphs of random fluent programs (from_source with/without yields, map, sum/mean/max/min/prod with batching, "
-        "add/multiply with scalar and action, select, concatenate, stack; single actions and Cascade.from_actions unions), and hand-damaged dicts. "
+        "parents are shared; odd names; in 55% of the specs node names, output names and input-parameter names come from ONE pool: 26 fixed names "
+        "(incl. '0' = DEFAULT_OUTPUT, '1', '__default__', dotted 'stats.mean' next to 'stats'/'mean', prefixes/suffixes 'n','n1','n10') plus the "
+        "parameter names of EVERY function and method of graph/export.py, graph/nodes.py, graph/graph.py and class Cascade, read by introspection "
+        "(input names: minus what Node.__init__ itself binds), node names being preferably the output names earlier nodes declare and references "
+        "preferring named outputs, names kept unique; payloads None/int/str/bool/float/list/tuple/dict nested to depth 3, dict keys str/int/bool/None "
+        "incl. keys that clash after JSON ('1' and 1); half of the specs 'rich': floats incl. inf and -0.0, by-reference functions, and ONE special "
+        "class per spec out of NaN (top level / nested), by-value callables (lambda, closure), payload objects with a serialise() method "
+        "(invertible by the harness's node factory or not; top level / nested); sinks = all terminal nodes, a subset of them, or terminals plus "
+        "inner nodes), graphs of random fluent programs (from_source with/without yields, map with module-level functions, lambdas and closures, "
+        "sum/mean/max/min/prod with batching, add/multiply with scalar and action, select, concatenate, stack; single actions and "
+        "Cascade.from_actions unions), and hand-damaged dicts (missing entry, missing output, an input renamed to a parameter name of the call path). "
         "non-trivial = graph with >= 3 nodes having a terminal node with outputs or a multi-output parent; distinct by content hash")
 ASSUMPTIONS = [
-    "node names are unique and the graph is acyclic (the property's quantifier)",
-    "payload universe of the model: None, bool, int, str, list, tuple, dict with string keys; callables in fluent payloads are opaque atoms",
-    "dill round-trips module-level functions by reference (trusted); floats are not generated",
+    "node names are unique and the graph is acyclic (the property's quantifier); nodes are built by the Node constructor, so no input is called "
+    "like a parameter of Node.__init__ (self, name, outputs, payload)",
+    "payload universe of the model: None, bool, int, str, float, list, tuple, dict with str/int/bool/None keys, opaque objects compared by identity "
+    "(functions, instances without __eq__), objects with a serialise() method compared by identity",
+    "dill rebuilds str, lists/tuples of str and dict skeletons exactly and pickles a function by reference iff it can be imported by its qualified "
+    "name (the harness predicts that from the module, the tie compares it with what dill did)",
+    "`same payload` for a function pickled by value means same code, defaults, closure contents and name (Python has no other equality for it)",
 ]
 
 D = "0"
+FRESH = 1000000
+
+
+# ----------------------------------------------------------------------------- translator
+
+def read_chain(repo):
+    """AST of graph/export.py + graph/nodes.py -> ([(function, [keyword-bindable parameter names])] in call order, params of Node.__init__).
+
+    Starting at `deserialise`, follow the calls to functions/classes of the two files; every callee that is called with a `**mapping`
+    argument receives a node's inputs as keyword arguments and enters the chain."""
+    import ast
+    base = repo / "src" / "earthkit" / "workflows" / "graph"
+    te = ast.parse((base / "export.py").read_text())
+    tn = ast.parse((base / "nodes.py").read_text())
+    funcs = {f.name: f for f in te.body if isinstance(f, ast.FunctionDef)}
+    classes = {c.name: c for c in tn.body if isinstance(c, ast.ClassDef)}
+    imported = set()
+    for st in te.body:
+        if isinstance(st, ast.ImportFrom) and st.module == "nodes" and st.level == 1:
+            imported |= {a.asname or a.name for a in st.names}
+
+    def kw_params(fd):
+        return [a.arg for a in fd.args.args] + [a.arg for a in fd.args.kwonlyargs]
+
+    def init_of(cname):
+        for st in classes[cname].body:
+            if isinstance(st, ast.FunctionDef) and st.name == "__init__":
+                return st
+        raise ValueError(f"class {cname} has no __init__ in nodes.py")
+
+    def resolve(fn, fd):
+        """callee of a Call node inside fd -> (qualified name, FunctionDef) or None"""
+        if not isinstance(fn, ast.Name):
+            return None
+        name = fn.id
+        pos = fd.args.posonlyargs + fd.args.args
+        defaults = dict(zip([a.arg for a in pos[len(pos) - len(fd.args.defaults):]], fd.args.defaults))
+        for a, dv in zip(fd.args.kwonlyargs, fd.args.kw_defaults):
+            if dv is not None:
+                defaults[a.arg] = dv
+        if name in {a.arg for a in pos + fd.args.kwonlyargs}:
+            if name in defaults and isinstance(defaults[name], ast.Name):
+                name = defaults[name].id          # a callable parameter: follow its default
+            else:
+                return None
+        if name in funcs:
+            return "export." + name, funcs[name]
+        if name in imported and name in classes:
+            return "nodes.%s.__init__" % name, init_of(name)
+        return None
+
+    chain, seen = [], set()
+
+    def visit(qn, fd):
+        if qn in seen:
+            return
+        seen.add(qn)
+        for call in [c for c in ast.walk(fd) if isinstance(c, ast.Call)]:
+            star = any(k.arg is None for k in call.keywords)
+            tgt = resolve(call.func, fd)
+            if tgt is None:
+                if star:
+                    raise ValueError(f"{qn}: call with ** to something the translator cannot resolve: {ast.dump(call.func)[:80]}")
+                continue
+            if star and tgt[0] not in [c[0] for c in chain]:
+                chain.append((tgt[0], kw_params(tgt[1])))
+            visit(*tgt)
+
+    if "deserialise" not in funcs:
+        raise ValueError("export.py has no function deserialise")
+    visit("export.deserialise", funcs["deserialise"])
+    return chain, kw_params(init_of("Node"))
+
+
+def _kw_runtime(fn):
+    import inspect
+    return [p.name for p in inspect.signature(fn).parameters.values() if p.kind in (p.POSITIONAL_OR_KEYWORD, p.KEYWORD_ONLY)]
+
+
+def render_chain(chain, init_kw):
+    q = lambda l: "[" + ", ".join(json.dumps(x) for x in l) + "]"
+    rows = ",\n".join("  (%s, %s)" % (json.dumps(n), q(ps)) for n, ps in chain)
+    return ("-- GENERATED by harness/ekw/props/c12.py (translator `export_params`) from\n"
+            "-- src/earthkit/workflows/graph/export.py and src/earthkit/workflows/graph/nodes.py -- do not edit.\n"
+            "namespace EkwVerif.Gen\n\n"
+            "/-- the calls through which `deserialise` hands the inputs of a node on as `**kwargs`, in call order:\n"
+            "(function, its parameter names that can be bound by keyword) -/\n"
+            "def exportChain : List (String × List String) := [\n" + rows + "\n]\n\n"
+            "/-- keyword-bindable parameter names of `Node.__init__`: no node built by the constructor has an input of such a name -/\n"
+            "def nodeInitKw : List String := " + q(init_kw) + "\n\n"
+            "/-- input names that make `deserialise` raise TypeError -/\n"
+            "def deserReserved : List String := exportChain.flatMap (·.2)\n\n"
+            "end EkwVerif.Gen\n")
+
+
+def translate(ctx):
+    from ekw.core import LEAN_DIR, REPO
+    from earthkit.workflows.graph import export, nodes
+    chain, init_kw = read_chain(REPO)
+    # cross-check with the imported code
+    for qn, ps in chain + [("nodes.Node.__init__", init_kw)]:
+        mod, _, rest = qn.partition(".")
+        obj = {"export": export, "nodes": nodes}[mod]
+        for part in rest.split("."):
+            obj = getattr(obj, part)
+        if _kw_runtime(obj) != ps:
+            raise ValueError(f"{qn}: source says {ps}, the imported function has {_kw_runtime(obj)}")
+    text = render_chain(chain, init_kw)
+    out = LEAN_DIR / "EkwVerif" / "Gen" / "ExportParams.lean"
+    out.parent.mkdir(parents=True, exist_ok=True)
+    if not out.exists() or out.read_text() != text:
+        out.write_text(text)
+    ctx.extra["export_chain"] = {n: ps for n, ps in chain}
+    ctx.extra["node_init_kw"] = init_kw
+
+
+@functools.lru_cache(maxsize=1)
+def introspected_names():
+    """(parameter names of every function/method of the (de)serialisation modules, keyword-bindable parameters of Node.__init__)"""
+    import inspect
+    from earthkit.workflows import Cascade
+    from earthkit.workflows.graph import export, graph, nodes
+    fns = []
+    for mod in (export, nodes, graph):
+        for _, o in inspect.getmembers(mod):
+            if inspect.isfunction(o) and o.__module__ == mod.__name__:
+                fns.append(o)
+            elif inspect.isclass(o) and o.__module__ == mod.__name__:
+                fns += [f for _, f in inspect.getmembers(o, inspect.isfunction)]
+    for _, f in inspect.getmembers(Cascade):
+        f = getattr(f, "__func__", f)
+        if inspect.isfunction(f):
+            fns.append(f)
+    names = set()
+    for f in fns:
+        try:
+            names |= set(inspect.signature(f).parameters)
+        except (TypeError, ValueError):
+            pass
+    return sorted(names), sorted(_kw_runtime(nodes.Node.__init__))
+
+
+# ----------------------------------------------------------------------------- opaque payload objects
+
+def c12_ref0(x):
+    return x
+
+
+def c12_ref1(x, y=0):
+    return y
+
+
+def c12_ref2(*a):
+    return a
+
+
+REF_FUNCS = [c12_ref0, c12_ref1, c12_ref2, len]
+
+
+def make_byval(k):
+    """a callable dill pickles by value: a lambda (even k) or a closure (odd k); k is readable off the object"""
+    if k % 2 == 0:
+        return lambda x, _k=k: x
+    def inner(x):
+        return (x, k)
+    return inner
+
+
+class C12Hook:
+    """a payload object with a serialise() method (equality = identity)"""
+
+    def __init__(self, hid, value, marked):
+        self.hid, self.value, self.marked = hid, value, marked
+
+    def serialise(self):
+        return {"__c12hook__": self.hid, "v": self.value} if self.marked else self.value
+
+
+def inv_factory(name, outputs, payload, **inputs):
+    """node factory that turns the serialised form of a marked C12Hook back into the object"""
+    from earthkit.workflows.graph.export import default_node_factory
+    if isinstance(payload, dict) and list(payload) == ["__c12hook__", "v"]:
+        payload = C12Hook(payload["__c12hook__"], payload["v"], True)
+    return default_node_factory(name, outputs, payload, **inputs)
+
+
+def by_ref(o):
+    """dill pickles o by reference: it can be imported by its qualified name"""
+    mod, qn = getattr(o, "__module__", None), getattr(o, "__qualname__", None)
+    if not isinstance(mod, str) or not isinstance(qn, str) or mod == "__main__" or mod not in sys.modules:
+        return False
+    cur = sys.modules[mod]
+    try:
+        for part in qn.split("."):
+            cur = getattr(cur, part)
+    except AttributeError:
+        return False
+    return cur is o
+
+
+def label(o):
+    """what a COPY of o still shows: used to say which original a new object is a copy of"""
+    if isinstance(o, C12Hook):
+        return "hook:%s" % o.hid
+    if isinstance(o, types.FunctionType):
+        if o.__defaults__ and o.__name__ == "<lambda>":
+            return "lambda:%r" % (o.__defaults__[-1],)
+        if o.__closure__:
+            try:
+                return "closure:%s:%r" % (o.__name__, tuple(c.cell_contents for c in o.__closure__))
+            except ValueError:
+                pass
+    return "%s:%s" % (type(o).__name__, getattr(o, "__qualname__", ""))
+
+
+class Reg:
+    """identity registry of the opaque objects of one case: object <-> number"""
+
+    def __init__(self):
+        self.by_num, self.by_id, self.next = {}, {}, 100
+
+    def _put(self, num, o):
+        self.by_num[num] = o
+        self.by_id[id(o)] = num
+        return o
+
+    def atom(self, num, ref):
+        if num in self.by_num:
+            return self.by_num[num]
+        return self._put(num, REF_FUNCS[num % len(REF_FUNCS)] if ref else make_byval(num))
+
+    def hook(self, num, value, marked):
+        if num in self.by_num:
+            return self.by_num[num]
+        return self._put(num, C12Hook(num, value, marked))
+
+    def num(self, o, register):
+        n = self.by_id.get(id(o))
+        if n is None and register:
+            n = self.next
+            self.next += 1
+            self._put(n, o)
+        return n
+
+    def copy_of(self, lab):
+        """number of the registered object a copy with this label stems from"""
+        c = [n for n, o in self.by_num.items() if label(o) == lab]
+        return c[0] if len(c) == 1 else "ambiguous:" + lab
 
 
 # ----------------------------------------------------------------------------- payload coding
 
-def tag(p):
-    """Python payload -> tagged JSON form understood by the Lean driver."""
+def tag_key(k):
+    if isinstance(k, str):
+        return {"k": "str", "v": k}
+    if isinstance(k, bool):
+        return {"k": "bool", "v": k}
+    if isinstance(k, int):
+        return {"k": "int", "v": k}
+    if k is None:
+        return {"k": "none"}
+    return {"k": "str", "v": "<key %s %r>" % (type(k).__name__, k)}
+
+
+def untag_key(t):
+    if isinstance(t, str):                         # old corpus format
+        return t
+    return None if t["k"] == "none" else t["v"]
+
+
+def tag(p, reg, register=True):
+    """Python payload -> tagged JSON form understood by the Lean driver.  Opaque objects are numbered by identity in `reg`;
+    with register=False (results of a round trip) an object that is not one of the registered originals is tagged as a copy."""
     if p is None:
         return {"t": "none"}
     if isinstance(p, bool):
@@ -58,34 +364,100 @@ def tag(p):
         return {"t": "int", "v": p}
     if isinstance(p, str):
         return {"t": "str", "v": p}
+    if isinstance(p, float):
+        return {"t": "float", "nan": p != p, "v": "nan" if p != p else p.hex()}
     if isinstance(p, list):
-        return {"t": "list", "v": [tag(x) for x in p]}
+        return {"t": "list", "v": [tag(x, reg, register) for x in p]}
     if isinstance(p, tuple):
-        return {"t": "tuple", "v": [tag(x) for x in p]}
+        return {"t": "tuple", "v": [tag(x, reg, register) for x in p]}
     if isinstance(p, dict):
-        return {"t": "dict", "v": [[str(k), tag(v)] for k, v in p.items()]}
-    if callable(p):
-        return {"t": "str", "v": "<callable %s>" % getattr(p, "__qualname__", type(p).__name__)}
+        return {"t": "dict", "v": [[tag_key(k), tag(v, reg, register)] for k, v in p.items()]}
     try:
         import numpy as np
         if isinstance(p, np.integer):
             return {"t": "int", "v": int(p)}
     except Exception:
         pass
-    return {"t": "str", "v": "<%s %s>" % (type(p).__name__, str(p)[:40])}
+    n = reg.num(p, register)
+    if hasattr(p, "serialise"):
+        out = {"t": "hook", "v": tag(p.serialise(), reg, register)}
+    else:
+        out = {"t": "atom", "ref": by_ref(p)}
+    if n is None:
+        out["copy_of"] = reg.copy_of(label(p))
+    else:
+        out["id"] = n
+    return out
 
 
-def untag(t):
+def untag(t, reg):
     k = t["t"]
     if k == "none":
         return None
     if k in ("bool", "int", "str"):
         return t["v"]
+    if k == "float":
+        return float("nan") if t["nan"] else float.fromhex(t["v"])
+    if k == "atom":
+        return reg.atom(t["id"], t["ref"])
+    if k == "hook":
+        v = t["v"]
+        marked = v["t"] == "dict" and [untag_key(e[0]) for e in v["v"]] == ["__c12hook__", "v"]
+        return reg.hook(t["id"], untag(v["v"][1][1] if marked else v, reg), marked)
     if k == "list":
-        return [untag(x) for x in t["v"]]
+        return [untag(x, reg) for x in t["v"]]
     if k == "tuple":
-        return tuple(untag(x) for x in t["v"])
-    return {a: untag(b) for a, b in t["v"]}
+        return tuple(untag(x, reg) for x in t["v"])
+    return {untag_key(a): untag(b, reg) for a, b in t["v"]}
+
+
+def norm_tag(t):
+    """bring a payload tag of an older corpus file into the current format (dict keys tagged)"""
+    if t["t"] in ("list", "tuple"):
+        return {"t": t["t"], "v": [norm_tag(x) for x in t["v"]]}
+    if t["t"] == "dict":
+        return {"t": "dict", "v": [[tag_key(a) if isinstance(a, str) else a, norm_tag(b)] for a, b in t["v"]]}
+    if t["t"] == "hook":
+        return dict(t, v=norm_tag(t["v"]))
+    return t
+
+
+def canon_model_pv(t, reg):
+    """payload tag printed by the model -> the form `tag(..., register=False)` gives: identities >= FRESH are copies"""
+    k = t["t"]
+    if k in ("list", "tuple"):
+        return {"t": k, "v": [canon_model_pv(x, reg) for x in t["v"]]}
+    if k == "dict":
+        return {"t": "dict", "v": [[a, canon_model_pv(b, reg)] for a, b in t["v"]]}
+    if k in ("atom", "hook"):
+        out = {"t": k}
+        if k == "hook":
+            out["v"] = canon_model_pv(t["v"], reg)
+        else:
+            out["ref"] = t["ref"]
+        if t["id"] >= FRESH:
+            o = reg.by_num.get(t["id"] - FRESH)
+            out["copy_of"] = reg.copy_of(label(o)) if o is not None else "unknown"
+        else:
+            out["id"] = t["id"]
+        return out
+    return t
+
+
+def by_state(t):
+    """forget whether an opaque object is the original or a copy (used for the node-factory path, which rebuilds objects)"""
+    k = t["t"]
+    if k in ("list", "tuple"):
+        return {"t": k, "v": [by_state(x) for x in t["v"]]}
+    if k == "dict":
+        return {"t": "dict", "v": [[a, by_state(b)] for a, b in t["v"]]}
+    if k in ("atom", "hook"):
+        out = {x: y for x, y in t.items() if x not in ("id", "copy_of", "v")}
+        out["st"] = t.get("id", t.get("copy_of"))
+        if k == "hook":
+            out["v"] = by_state(t["v"])
+        return out
+    return t
 
 
 def tag_ref(r):
@@ -94,30 +466,125 @@ def tag_ref(r):
     return {"t": "tuple" if isinstance(r, tuple) else "list", "v": list(r)}
 
 
+def scan(t, acc):
+    """which payload classes occur in a tag (for the distribution and for the choice of oracle clauses)"""
+    k = t["t"]
+    if k == "float":
+        acc.add("nan" if t["nan"] else "float")
+    elif k == "atom":
+        acc.add("by-reference-object" if t["ref"] else "by-value-object")
+    elif k == "hook":
+        acc.add("hook")
+        scan(t["v"], acc)
+    elif k in ("list", "tuple"):
+        if k == "tuple":
+            acc.add("tuple")
+        for x in t["v"]:
+            scan(x, acc)
+    elif k == "dict":
+        ks = [a if isinstance(a, dict) else tag_key(a) for a, _ in t["v"]]
+        if any(a["k"] != "str" for a in ks):
+            acc.add("non-str-key")
+        js = [json.dumps(a["v"]) if a["k"] in ("int", "bool") else ("null" if a["k"] == "none" else a["v"]) for a in ks]
+        if len(set(js)) < len(js):
+            acc.add("keys-clashing-in-json")
+        for _, x in t["v"]:
+            scan(x, acc)
+    return acc
+
+
 # ----------------------------------------------------------------------------- generators
 
-def gen_payload(rng, depth=0):
+KEYS = ["k", "a", "b", "0", "1", 1, 0, -3, True, None]
+
+
+def gen_payload(rng, fl, depth=0):
+    """a payload TAG; fl = {"rich": bool, "special": None | "nan" | "byval" | "hook"}"""
     x = rng.random()
     if depth == 0 and x < 0.3:
-        return None
+        return {"t": "none"}
     if x < 0.45 or depth >= 3:
-        return rng.choice([0, 1, 7, -2, "s", "input0", "", True, False, None])
+        reg = None
+        leaf = rng.choice([0, 1, 7, -2, "s", "input0", "", True, False, None])
+        if fl["rich"] and rng.random() < 0.35:
+            leaf = rng.choice([0.5, -0.0, 1e300, float("inf"), float("-inf"), 2.0, -1.25, 0.1, 1 / 3, 2.5e-7, 123456.789012345, 5e-324, 10 ** 20])
+        if fl["rich"] and rng.random() < 0.15:
+            return {"t": "atom", "ref": True, "id": rng.randrange(len(REF_FUNCS))}
+        if fl["special"] == "nan" and rng.random() < 0.3:
+            leaf = float("nan")
+        if fl["special"] == "byval" and rng.random() < 0.3:
+            return {"t": "atom", "ref": False, "id": 10 + rng.randrange(4)}
+        if fl["special"] == "hook" and rng.random() < (0.3 if depth == 0 else 0.1):
+            return gen_hook(rng, fl, depth)
+        return tag(leaf, reg)
     if x < 0.65:
-        return [gen_payload(rng, depth + 1) for _ in range(rng.randint(0, 3))]
+        return {"t": "list", "v": [gen_payload(rng, fl, depth + 1) for _ in range(rng.randint(0, 3))]}
     if x < 0.85:
-        return tuple(gen_payload(rng, depth + 1) for _ in range(rng.randint(0, 3)))
-    return {rng.choice(["k", "a", "b", "0"]): gen_payload(rng, depth + 1) for _ in range(rng.randint(0, 2))}
+        return {"t": "list" if fl.get("jsonish") else "tuple", "v": [gen_payload(rng, fl, depth + 1) for _ in range(rng.randint(0, 3))]}
+    keys = []
+    for _ in range(rng.randint(0, 3)):
+        k = rng.choice(KEYS[:5] if fl.get("jsonish") else KEYS if fl["rich"] or rng.random() < 0.3 else KEYS[:4])
+        if not any(k == c and (k is None) == (c is None) for c in keys):          # Python dict keys: 1 == True
+            keys.append(k)
+    return {"t": "dict", "v": [[tag_key(k), gen_payload(rng, fl, depth + 1)] for k in keys]}
+
+
+def gen_hook(rng, fl, depth):
+    hid = 50 + rng.randrange(6)
+    inner = gen_payload(rng, {"rich": fl["rich"], "special": None, "jsonish": rng.random() < 0.5}, depth + 1)
+    if rng.random() < 0.5:                          # marked: the harness's node factory can turn it back
+        return {"t": "hook", "id": hid, "v": {"t": "dict", "v": [[tag_key("__c12hook__"), {"t": "int", "v": hid}], [tag_key("v"), inner]]}}
+    if inner["t"] == "dict" and [untag_key(e[0]) for e in inner["v"]] == ["__c12hook__", "v"]:
+        inner = {"t": "none"}
+    return {"t": "hook", "id": hid, "v": inner}
+
+
+def gen_node_payload(rng, fl, hooks_used):
+    """payload of one node: now and then the special class of the spec in a typical position"""
+    sp = fl["special"]
+    r = rng.random()
+    if sp == "nan" and r < 0.25:
+        return rng.choice([{"t": "float", "nan": True, "v": "nan"}, {"t": "list", "v": [{"t": "float", "nan": True, "v": "nan"}]}])
+    if sp == "byval" and r < 0.3:                  # fluent style: (function, args, kwargs)
+        return {"t": "tuple", "v": [{"t": "atom", "ref": False, "id": 10 + rng.randrange(4)}, {"t": "list", "v": [{"t": "str", "v": "input0"}]}, {"t": "dict", "v": []}]}
+    if fl["rich"] and r > 0.9:
+        return {"t": "tuple", "v": [{"t": "atom", "ref": True, "id": rng.randrange(len(REF_FUNCS))}, {"t": "list", "v": [{"t": "int", "v": 1}]}, {"t": "dict", "v": []}]}
+    p = gen_hook(rng, fl, 0) if sp == "hook" and r < 0.3 else gen_payload(rng, fl)
+    # one hook id = one object: the same id must not be declared with two different states in one spec
+    def fix(t):
+        if t["t"] == "hook":
+            key = json.dumps(t["v"], sort_keys=True)
+            while t["id"] in hooks_used and hooks_used[t["id"]] != key:
+                t["id"] += 6
+            hooks_used[t["id"]] = key
+            if t["v"]["t"] == "dict" and t["v"]["v"] and untag_key(t["v"]["v"][0][0]) == "__c12hook__":
+                t["v"]["v"][0][1] = {"t": "int", "v": t["id"]}
+                hooks_used[t["id"]] = json.dumps(t["v"], sort_keys=True)
+            fix(t["v"])
+        elif t["t"] in ("list", "tuple"):
+            for x in t["v"]:
+                fix(x)
+        elif t["t"] == "dict":
+            for _, x in t["v"]:
+                fix(x)
+    fix(p)
+    return p
 
 
 # one small pool for the three namespaces (node names, output names, input-parameter names): a node may be called like
 # an output of another node, like one of its own outputs or parameters, like a serialised reference "parent.output",
-# like a prefix / suffix of another name, or like the default output
-POOL = ["0", "1", "2", "x", "y", "out", "aux", "a", "b", "in", "input0", "input1", "mean", "std", "stats", "__default__",
-        "a.b", "x.y", "stats.mean", "in0", "n", "n1", "n10", "ab", "0.1", "00"]
-_NOT_A_PARAM = {"name", "outputs", "payload", "self"}        # parameter names of Node.__init__ itself
+# like a prefix / suffix of another name, or like the default output; plus (by introspection) the parameter names of
+# every function on the (de)serialisation path
+POOL0 = ["0", "1", "2", "x", "y", "out", "aux", "a", "b", "in", "input0", "input1", "mean", "std", "stats", "__default__",
+         "a.b", "x.y", "stats.mean", "in0", "n", "n1", "n10", "ab", "0.1", "00"]
 
 
-def _node_name(rng, i, used, earlier_outs, collide):
+def pools():
+    params, init_kw = introspected_names()
+    return POOL0 + [p for p in params if p not in POOL0], set(init_kw), params
+
+
+def _node_name(rng, i, used, earlier_outs, collide, pool):
     if not collide:
         nm = rng.choice(["0", "x.y", "a b", "n", "name-1", "Ω"]) if rng.random() < 0.1 else "n%d" % i
     else:
@@ -126,26 +593,31 @@ def _node_name(rng, i, used, earlier_outs, collide):
         if r < 0.4:                                   # the name of an output some earlier node declares
             cands = sorted({o for o in earlier_outs if o not in used})
         if not cands and r < 0.85:
-            cands = [p for p in POOL if p not in used]
+            cands = [p for p in pool if p not in used]
         if cands:
             nm = rng.choice(cands)
         elif used:                                    # prefix / suffix / dotted extension of an existing name
             base = rng.choice(used)
-            nm = rng.choice([base + ".0", base + "0", base[:-1] or "n", "0" + base, base + "." + rng.choice(POOL), base + "."])
+            nm = rng.choice([base + ".0", base + "0", base[:-1] or "n", "0" + base, base + "." + rng.choice(pool), base + "."])
         else:
-            nm = rng.choice(POOL)
+            nm = rng.choice(pool)
     while nm in used:
         nm += "'"
     return nm
 
 
-def gen_spec(rng, maxn):
+def gen_spec(rng, maxn, plain=False, forced_ok=True):
+    pool, not_a_param, params = pools()
     n = rng.choice([0, 1, 2]) if rng.random() < 0.08 else rng.randint(2, maxn)
     collide = rng.random() < 0.55
+    rich = (not plain) and rng.random() < 0.5
+    fl = {"rich": rich, "special": rng.choice([None, "nan", "byval", "hook"]) if rich else None,
+          "jsonish": (not rich) and rng.random() < 0.5}          # payloads JSON represents faithfully: no tuples, string keys
+    hooks_used = {}
     names = []
     nodes = []
     for i in range(n):
-        names.append(_node_name(rng, i, names, [o for p in nodes for o in p["outputs"]], collide))
+        names.append(_node_name(rng, i, names, [o for p in nodes for o in p["outputs"]], collide, pool))
         x = rng.random()
         if x < (0.4 if collide else 0.5):
             outputs = [D]
@@ -153,7 +625,7 @@ def gen_spec(rng, maxn):
             outputs = []
         elif collide:
             # output names from the pool and from the names of the nodes (this one's too)
-            outputs = rng.sample(sorted(set(POOL) | set(names)), rng.randint(1, 3))
+            outputs = rng.sample(sorted(set(pool) | set(names)), rng.randint(1, 3))
         else:
             outputs = rng.choice([["x", "y"], ["0", "1", "2"], ["out"], ["0", "aux"], ["b", "a"]])
         cands = [(p["name"], o) for p in nodes for o in p["outputs"]]
@@ -161,11 +633,16 @@ def gen_spec(rng, maxn):
         if cands:
             k = rng.choice([0, 1, 1, 2, 2, 3])
             if collide:
-                ipool = sorted((set(POOL) | set(names) | {o for _, o in cands}) - _NOT_A_PARAM)
+                ipool = sorted((set(pool) | set(names) | {o for _, o in cands}) - not_a_param)
             else:
                 ipool = ["input0", "input1", "a", "b", "in"]
+            inames = rng.sample(ipool, k)
+            if k and rng.random() < 0.12:             # a parameter name of the (de)serialisation functions as input name
+                cand = [p for p in params if p not in not_a_param and p not in inames]
+                if cand:
+                    inames[0] = rng.choice(cand)
             named = [c for c in cands if c[1] != D]
-            for iname in rng.sample(ipool, k):
+            for iname in inames:
                 if collide and named and rng.random() < 0.45:   # a reference that is serialised with the output's name
                     par, out = rng.choice(named)
                 elif rng.random() < 0.6:          # prefer recent nodes: deeper graphs
@@ -174,7 +651,18 @@ def gen_spec(rng, maxn):
                     par, out = rng.choice(cands)
                 inputs.append([iname, par, out])
         nodes.append({"name": names[i], "outputs": outputs, "dflt": outputs == [D] and rng.random() < 0.5,
-                      "payload": tag(gen_payload(rng)), "inputs": inputs})
+                      "payload": gen_node_payload(rng, fl, hooks_used), "inputs": inputs})
+    if nodes and forced_ok and rng.random() < 0.04:
+        # outside the quantifier (the constructor cannot build it): an input called like a parameter of Node.__init__,
+        # written into Node.inputs directly; only the tie looks at it (the model says TypeError on the way back)
+        tgt = rng.choice(nodes)
+        cands = [(p["name"], o) for p in nodes[:nodes.index(tgt)] for o in p["outputs"]]
+        free = sorted(not_a_param - {i[0] for i in tgt["inputs"]})
+        if cands and free:
+            par, out = rng.choice(cands)
+            iname = rng.choice(free)
+            tgt["inputs"].append([iname, par, out])
+            tgt["forced"] = [iname]
     consumed = {i[1] for nd in nodes for i in nd["inputs"]}
     terminal = [nd["name"] for nd in nodes if nd["name"] not in consumed]
     x = rng.random()
@@ -206,15 +694,16 @@ def gen_fluent(rng):
     nd = rng.choice([1, 2, 2])
     shape = [rng.randint(1, 3) for _ in range(nd)]
     steps = []
-    for _ in range(rng.randint(1, 5)):
+    byval = rng.random() < 0.3
+    for j in range(rng.randint(1, 5)):
         x = rng.random()
         dim = "d%d" % rng.randrange(nd)
         if x < 0.25:
-            steps.append(["map", rng.choice(["f1", "f2", "f1kw"])])
+            steps.append(["map", rng.choice(["f1", "f2", "f1kw"] + (["byval%d" % (20 + 2 * j), "byval%d" % (21 + 2 * j)] * 2 if byval else []))])
         elif x < 0.55:
             steps.append([rng.choice(["sum", "mean", "max", "min", "prod"]), dim, rng.choice([0, 0, 2, 3])])
         elif x < 0.7:
-            steps.append([rng.choice(["add", "multiply", "subtract"]), rng.choice([3, "self", "base"])])
+            steps.append([rng.choice(["add", "multiply", "subtract"]), rng.choice([3, "self", "base", 0.5 if byval else 3])])
         elif x < 0.8:
             steps.append(["select", dim, 0])
         elif x < 0.9:
@@ -246,7 +735,10 @@ def build_fluent(desc):
     for st in desc["steps"]:
         try:
             if st[0] == "map":
-                pl = {"f1": c12_f1, "f2": Payload(c12_f2, ["input0", (1, "t")], {"tag": "k"}), "f1kw": Payload(c12_f1, kwargs={"k": 2})}[st[1]]
+                if st[1].startswith("byval"):
+                    pl = make_byval(int(st[1][5:]))
+                else:
+                    pl = {"f1": c12_f1, "f2": Payload(c12_f2, ["input0", (1, "t")], {"tag": "k"}), "f1kw": Payload(c12_f1, kwargs={"k": 2})}[st[1]]
                 nxt = cur.map(pl)
             elif st[0] in ("sum", "mean", "max", "min", "prod"):
                 nxt = getattr(cur, st[0])(st[1], batch_size=st[2])
@@ -259,7 +751,7 @@ def build_fluent(desc):
                 nxt = getattr(cur, st[0])(st[1])
             cur = nxt
             acts.append(cur)
-            applied.append(st[0])
+            applied.append("map-by-value-callable" if st[0] == "map" and st[1].startswith("byval") else st[0])
         except Exception:
             continue
     if desc["union"] and len(acts) > 1:
@@ -271,17 +763,22 @@ def build_fluent(desc):
 
 # ----------------------------------------------------------------------------- real side
 
-def build_real(spec):
+def build_real(spec, reg):
     from earthkit.workflows.graph import Graph, Node
     objs = {}
     for nd in spec["nodes"]:
-        ins = {}
+        ins, forced = {}, {}
         for iname, par, out in nd["inputs"]:
-            ins[iname] = objs[par].get_output() if (out == D and len(iname) % 2 == 0) else objs[par].get_output(out)
+            o = objs[par].get_output() if (out == D and len(iname) % 2 == 0) else objs[par].get_output(out)
+            (forced if iname in nd.get("forced", ()) else ins)[iname] = o
         if nd.get("dflt"):
-            objs[nd["name"]] = Node(nd["name"], payload=untag(nd["payload"]), **ins)
+            node = Node(nd["name"], payload=untag(nd["payload"], reg), **ins)
         else:
-            objs[nd["name"]] = Node(nd["name"], list(nd["outputs"]), untag(nd["payload"]), **ins)
+            node = Node(nd["name"], list(nd["outputs"]), untag(nd["payload"], reg), **ins)
+        if sorted(node.inputs) != sorted(ins):
+            raise ValueError("the constructor did not take every keyword as an input: %s" % sorted(set(ins) - set(node.inputs)))
+        node.inputs.update(forced)
+        objs[nd["name"]] = node
     return Graph([objs[s] for s in spec["sinks"]])
 
 
@@ -308,63 +805,65 @@ def walk(sinks):
     for n in order:
         if n.name in recs:
             dups.append(n.name)
-        recs[n.name] = {"name": n.name, "outputs": list(n.outputs), "payload": n.payload,
+        recs[n.name] = {"name": n.name, "outputs": list(n.outputs), "payload": n.payload, "type": type(n),
                         "inputs": {k: (v.parent.name, v.name) for k, v in n.inputs.items()}}
     return recs, order, dups
 
 
-def spec_of_graph(g, desc):
+def spec_of_graph(g, desc, reg):
     """Topologically ordered spec of a real graph (used for fluent graphs)."""
     recs, order, dups = walk(g.sinks)
-    nodes = [{"name": n.name, "outputs": list(n.outputs), "payload": tag(n.payload),
+    nodes = [{"name": n.name, "outputs": list(n.outputs), "payload": tag(n.payload, reg),
               "inputs": [[k, v.parent.name, v.name] for k, v in n.inputs.items()]} for n in order]
-    return {"kind": "fluent", "desc": desc, "nodes": nodes, "sinks": [s.name for s in g.sinks]}
+    return {"kind": "fluent", "desc": desc, "nodes": nodes, "sinks": [s.name for s in g.sinks], "dups": dups}
 
 
 def canon_node(name, outputs, payload, inputs):
     return {"name": name, "outputs": list(outputs), "payload": payload, "inputs": sorted([list(i) for i in inputs])}
 
 
-def canon_graph_real(g):
-    return sorted([canon_node(n.name, n.outputs, tag(n.payload), [[k, v.parent.name, v.name] for k, v in n.inputs.items()])
+def canon_graph_real(g, reg):
+    return sorted([canon_node(n.name, n.outputs, tag(n.payload, reg, register=False), [[k, v.parent.name, v.name] for k, v in n.inputs.items()])
                    for n in g.nodes()], key=lambda r: r["name"])
 
 
-def canon_ser_real(d):
+def canon_ser_real(d, reg):
     out = []
     for name, e in d.items():
         out.append([name, {"outputs": list(e.get("outputs", [])),
                            "inputs": sorted([[k, tag_ref(r)] for k, r in e.get("inputs", {}).items()], key=lambda x: x[0]),
-                           "payload": tag(e["payload"]) if "payload" in e else None}])
+                           "payload": tag(e["payload"], reg, register=False) if "payload" in e and e["payload"] is not None else None}])
     return sorted(out, key=lambda x: x[0])
 
 
-def canon_ser_model(l):
-    return sorted([[name, {"outputs": e["outputs"], "inputs": sorted(e["inputs"], key=lambda x: x[0]), "payload": e["payload"]}] for name, e in l],
+def canon_ser_model(l, reg):
+    return sorted([[name, {"outputs": e["outputs"], "inputs": sorted(e["inputs"], key=lambda x: x[0]),
+                           "payload": None if e["payload"] is None or e["payload"]["t"] == "none" else canon_model_pv(e["payload"], reg)}] for name, e in l],
                   key=lambda x: x[0])
 
 
-def canon_round_model(r, with_eq=True):
+def canon_round_model(r, reg, with_eq=True, state=False):
     if not r["ok"]:
         return {"ok": False, "err": r["err"]}
-    out = {"ok": True, "nodes": sorted([canon_node(n["name"], n["outputs"], n["payload"], n["inputs"]) for n in r["nodes"]], key=lambda x: x["name"]),
+    f = (lambda t: by_state(canon_model_pv(t, reg))) if state else (lambda t: canon_model_pv(t, reg))
+    out = {"ok": True, "nodes": sorted([canon_node(n["name"], n["outputs"], f(n["payload"]), n["inputs"]) for n in r["nodes"]], key=lambda x: x["name"]),
            "sinks": sorted(r["sinks"])}
     if with_eq:
         out["eq"], out["eq_rev"] = r["eq"], r["eq_rev"]
     return out
 
 
-def round_real(g, fn, with_eq=True):
+def round_real(g, fn, reg, with_eq=True):
     try:
         r = fn()
     except Exception as e:
-        return {"ok": False, "err": type(e).__name__}, None
+        return {"ok": False, "err": type(e).__name__, "msg": str(e)[:160]}, None
     try:
-        out = {"ok": True, "nodes": canon_graph_real(r), "sinks": sorted(s.name for s in r.sinks)}
+        out = {"ok": True, "nodes": canon_graph_real(r, reg), "sinks": sorted(s.name for s in r.sinks)}
         if with_eq:
             out["eq"], out["eq_rev"] = bool(r == g), bool(g == r)
     except Exception as e:
-        return {"ok": False, "err": "after:" + type(e).__name__}, None
+        return {"ok": False, "err": "after:" + type(e).__name__, "msg": str(e)[:160]}, None
     return out, r
 
 
@@ -376,20 +875,25 @@ def _file_trip(g):
         return Cascade.from_serialised(path)._graph
 
 
+# ----------------------------------------------------------------------------- oracle (property text only)
+
 def jsonable(p):
-    if p is None or isinstance(p, (bool, int, str)):
+    """json.dumps takes p"""
+    if p is None or isinstance(p, (bool, int, str, float)):
         return True
     if isinstance(p, (list, tuple)):
         return all(jsonable(x) for x in p)
     if isinstance(p, dict):
-        return all(isinstance(k, str) and jsonable(v) for k, v in p.items())
+        return all((k is None or isinstance(k, (str, int, float, bool))) and jsonable(v) for k, v in p.items())
     return False
 
 
 def faithful(p):
-    """JSON represents p faithfully: reading it back gives an equal value (no tuples, string keys)."""
+    """JSON represents p faithfully: reading it back gives an equal value (no tuples, string keys, no NaN)."""
     if p is None or isinstance(p, (bool, int, str)):
         return True
+    if isinstance(p, float):
+        return p == p
     if isinstance(p, list):
         return all(faithful(x) for x in p)
     if isinstance(p, dict):
@@ -397,8 +901,80 @@ def faithful(p):
     return False
 
 
-def oracle_compare(path, orig_sinks, res_graph, need_payload):
-    """Property text: same nodes, outputs, inputs, payloads, nothing lost; and `==`."""
+def same_function(a, b):
+    if a is b:
+        return True
+    try:
+        ca = tuple(c.cell_contents for c in (a.__closure__ or ()))
+        cb = tuple(c.cell_contents for c in (b.__closure__ or ()))
+    except ValueError:
+        return False
+    return (a.__code__ == b.__code__ and a.__name__ == b.__name__ and a.__qualname__ == b.__qualname__ and a.__module__ == b.__module__
+            and same_payload(a.__defaults__, b.__defaults__) and same_payload(a.__kwdefaults__, b.__kwdefaults__) and same_payload(ca, cb))
+
+
+def same_payload(a, b):
+    """the same payload: same types, same values (a NaN is the same as a NaN, 0.0 is not -0.0, a tuple is not a list), same objects
+    where objects have no value (a function pickled by value: same code, defaults, closure and name)"""
+    if a is b:
+        return True
+    if type(a) is not type(b):
+        return False
+    if a is None or isinstance(a, (bool, int, str)):
+        return a == b
+    if isinstance(a, float):
+        return (a != a and b != b) or (a == b and math.copysign(1.0, a) == math.copysign(1.0, b))
+    if isinstance(a, (list, tuple)):
+        return len(a) == len(b) and all(same_payload(x, y) for x, y in zip(a, b))
+    if isinstance(a, dict):
+        if len(a) != len(b):
+            return False
+        for k, v in a.items():
+            hit = [kb for kb in b if type(kb) is type(k) and kb == k]
+            if len(hit) != 1 or not same_payload(v, b[hit[0]]):
+                return False
+        return True
+    if isinstance(a, types.FunctionType):
+        return same_function(a, b)
+    if hasattr(a, "serialise") and hasattr(a, "__dict__"):
+        return same_payload(a.__dict__, b.__dict__)
+    try:
+        return bool(a == b)
+    except Exception:
+        return False
+
+
+def has_nan(p):
+    if isinstance(p, float):
+        return p != p
+    if isinstance(p, (list, tuple)):
+        return any(has_nan(x) for x in p)
+    if isinstance(p, dict):
+        return any(has_nan(v) for v in p.values())
+    return False
+
+
+def has_by_value_object(p):
+    """an object that has no value of its own (compared by identity) and that pickle cannot store as a reference"""
+    if p is None or isinstance(p, (bool, int, str, float)):
+        return False
+    if isinstance(p, (list, tuple)):
+        return any(has_by_value_object(x) for x in p)
+    if isinstance(p, dict):
+        return any(has_by_value_object(v) for v in p.values())
+    return not by_ref(p)
+
+
+def py_eq(a, b):
+    """Python's own `not (a != b)`; None if the comparison itself raises"""
+    try:
+        return not (a != b)
+    except Exception:
+        return None
+
+
+def oracle_compare(path, orig_sinks, res_graph, need_payload, demand_eq, eq, eq_rev, by_state_only=False):
+    """Property text: same nodes, outputs, inputs, payloads, nothing lost; and `==`.  Returns (signature, text) or None."""
     a, _, _ = walk(orig_sinks)
     b, _, dups = walk(res_graph.sinks)
     lost = sorted(set(a) - set(b))
@@ -413,48 +989,100 @@ def oracle_compare(path, orig_sinks, res_graph, need_payload):
             return ({"kind": "outputs-differ", "path": path}, f"{path}: node {name!r} outputs {ra['outputs']} came back as {rb['outputs']}")
         if ra["inputs"] != rb["inputs"]:
             return ({"kind": "inputs-differ", "path": path}, f"{path}: node {name!r} inputs {ra['inputs']} came back as {rb['inputs']}")
-        if need_payload(ra["payload"]):
-            same = ra["payload"] == rb["payload"] and tag(ra["payload"]) == tag(rb["payload"])
-            if not same:
-                return ({"kind": "payload-differs", "path": path}, f"{path}: node {name!r} payload {ra['payload']!r} came back as {rb['payload']!r}")
+    for name, ra in a.items():
+        rb = b[name]
+        pa, pb = ra["payload"], rb["payload"]
+        if need_payload(pa) and not same_payload(pa, pb):
+            sig = {"kind": "payload-differs", "path": path}
+            if hasattr(pa, "serialise") and not isinstance(pa, type) and same_payload(pa.serialise(), pb):
+                sig["cause"] = "serialise-hook"
+            return (sig, f"{path}: node {name!r} payload {pa!r} came back as {pb!r}" +
+                    (" (the result of its serialise() method)" if "cause" in sig else ""))
+    if by_state_only:
+        return None
+    # `==` must say what Python's comparison of the payloads says (names, outputs, inputs are the same by now)
+    pe = [py_eq(b[n]["payload"], a[n]["payload"]) for n in a]
+    pr = [py_eq(a[n]["payload"], b[n]["payload"]) for n in a]
+    if None not in pe and None not in pr and (eq != all(pe) or eq_rev != all(pr)):
+        return ({"kind": "eq-inconsistent", "path": path},
+                f"{path}: nodes, outputs, inputs agree and the payload comparisons give {all(pe)}/{all(pr)}, but result == original is {eq}, original == result is {eq_rev}")
+    if demand_eq and not (eq and eq_rev):
+        causes = set()
+        for n, ok in zip(a, pe):
+            if ok:
+                continue
+            pa = a[n]["payload"]
+            c = set()
+            if (isinstance(pa, float) and pa != pa) if path == "dict" else has_nan(pa):
+                c.add("nan")
+            if path == "file" and has_by_value_object(pa):
+                c.add("by-value-object")
+            if not c:
+                causes = None
+                break
+            causes |= c
+        sig = {"kind": "not-equal", "path": path}
+        why = ""
+        if causes:
+            sig["cause"] = "+".join(sorted(causes))
+            why = " (every differing payload holds: %s)" % sig["cause"]
+        return (sig, f"{path} round trip: result == original is {eq}, original == result is {eq_rev}" + why)
     return None
 
 
-def run_case(spec, g=None):
-    """Real side of one graph case. Returns (impl outputs for the model comparison, oracle failure or None)."""
+def run_case(spec, g=None, reg=None):
+    """Real side of one graph case. Returns (impl outputs for the model comparison, list of oracle failures, reg)."""
     from earthkit.workflows.graph import deserialise, from_json, serialise, to_json
-    fail = None
+    fails = []
     impl = {}
     try:
         if g is None:
-            g = build_real(spec)
+            reg = Reg()
+            g = build_real(spec, reg)
         impl["reach"] = sorted(n.name for n in g.nodes())
-        impl["ser"] = canon_ser_real(serialise(g))
+        impl["ser"] = canon_ser_real(serialise(g), reg)
+        impl["self_eq"] = bool(g == g)
     except Exception as e:
-        return {"crash": type(e).__name__ + ": " + str(e)[:100]}, ({"kind": "serialise-crash"}, f"serialise raised {type(e).__name__}: {e}")
-    fluent = spec["kind"] == "fluent"
+        return {"crash": type(e).__name__ + ": " + str(e)[:100]}, [({"kind": "serialise-crash"}, f"serialise raised {type(e).__name__}: {e}")], reg
     recs, _, _ = walk(g.sinks)
-    all_faithful = all(faithful(r["payload"]) for r in recs.values())
-    paths = [("dict", lambda: deserialise(serialise(g)), lambda p: True),
-             ("file", lambda: _file_trip(g), lambda p: True)]
-    if not fluent:
-        paths.insert(1, ("json", lambda: from_json(to_json(g)), faithful))
-        try:
-            impl["json_ser"] = canon_ser_real(json.loads(to_json(g)))
-        except Exception as e:
-            impl["json_ser"] = "crash:" + type(e).__name__
-    for path, fn, need in paths:
-        out, r = round_real(g, fn)
-        impl[path] = out
-        if fail is not None:
+    pls = [r["payload"] for r in recs.values()]
+    sers = [p.serialise() if hasattr(p, "serialise") and not isinstance(p, type) else p for p in pls]
+    all_faithful = all(faithful(p) for p in pls)
+    hooks = [p for p in pls if isinstance(p, C12Hook)]
+    paths = [("dict", lambda: deserialise(serialise(g)), lambda p: True, True),
+             ("json", lambda: from_json(to_json(g)), faithful, all_faithful),
+             ("file", lambda: _file_trip(g), lambda p: True, True)]
+    try:
+        impl["json_ser"] = canon_ser_real(json.loads(to_json(g)), reg)
+    except Exception as e:
+        impl["json_ser"] = "crash:" + type(e).__name__
+    outside = any(n.get("forced") for n in spec["nodes"])
+    for path, fn, need, demand in paths:
+        out, r = round_real(g, fn, reg)
+        impl[path] = {k: v for k, v in out.items() if k != "msg"}
+        if outside:
             continue
         if not out["ok"]:
-            fail = ({"kind": "roundtrip-crash", "path": path, "exc": out["err"]}, f"{path} round trip raised {out['err']}")
+            if path == "json" and out["err"] == "TypeError" and not all(jsonable(p) for p in sers):
+                continue                       # json.dumps does not take the payloads: outside the JSON clause
+            fails.append(({"kind": "roundtrip-crash", "path": path, "exc": out["err"]}, f"{path} round trip raised {out['err']}: {out.get('msg', '')}"))
             continue
-        fail = oracle_compare(path, g.sinks, r, need)
-        if fail is None and (path != "json" or all_faithful) and not (out["eq"] and out["eq_rev"]):
-            fail = ({"kind": "not-equal", "path": path}, f"{path} round trip: result == original is {out['eq']}, original == result is {out['eq_rev']}")
-    return impl, fail
+        f = oracle_compare(path, g.sinks, r, need, demand, out["eq"], out["eq_rev"])
+        if f:
+            fails.append(f)
+    # the node factory is the documented way back for payload objects with a serialise() method
+    out, r = round_real(g, lambda: deserialise(serialise(g), node_factory=inv_factory), reg, with_eq=False)
+    if out["ok"]:
+        out["nodes"] = [dict(n, payload=by_state(n["payload"])) for n in out["nodes"]]
+    impl["dict_inv"] = {k: v for k, v in out.items() if k != "msg"}
+    if hooks and all(h.marked for h in hooks) and not outside:
+        if not out["ok"]:
+            fails.append(({"kind": "roundtrip-crash", "path": "dict+factory", "exc": out["err"]}, f"deserialise with a node factory raised {out['err']}: {out.get('msg', '')}"))
+        else:
+            f = oracle_compare("dict+factory", g.sinks, r, lambda p: True, False, None, None, by_state_only=True)
+            if f:
+                fails.append(f)
+    return impl, fails, reg
 
 
 def model_line(spec):
@@ -462,14 +1090,17 @@ def model_line(spec):
                        "nodes": [{"name": n["name"], "outputs": n["outputs"], "payload": n["payload"], "inputs": n["inputs"]} for n in spec["nodes"]]})
 
 
-def compare_graph(ctx, spec, impl, mo):
+def compare_graph(ctx, spec, impl, mo, reg):
     if "crash" in impl:
         ctx.disagree("serialise", {"spec": spec}, "no exception", impl["crash"])
         return
-    checks = [("reach", sorted(mo["reach"]), impl["reach"]), ("serialise", canon_ser_model(mo["ser"]), impl["ser"]),
-              ("dict-roundtrip", canon_round_model(mo["dict"]), impl["dict"]), ("file-roundtrip", canon_round_model(mo["dict"]), impl["file"])]
-    if "json" in impl:
-        checks += [("to_json", canon_ser_model(mo["json_ser"]), impl["json_ser"]), ("json-roundtrip", canon_round_model(mo["json"]), impl["json"])]
+    checks = [("reach", sorted(mo["reach"]), impl["reach"]), ("serialise", canon_ser_model(mo["ser"], reg), impl["ser"]),
+              ("self-eq", mo["self_eq"], impl["self_eq"]),
+              ("to_json", "crash:TypeError" if mo["json_ser"] is None else canon_ser_model(mo["json_ser"], reg), impl["json_ser"]),
+              ("dict-roundtrip", canon_round_model(mo["dict"], reg), impl["dict"]),
+              ("json-roundtrip", canon_round_model(mo["json"], reg), impl["json"]),
+              ("file-roundtrip", canon_round_model(mo["file"], reg), impl["file"]),
+              ("factory-roundtrip", canon_round_model(mo["dict_inv"], reg, with_eq=False, state=True), impl["dict_inv"])]
     for where, m, i in checks:
         if m != i:
             ctx.disagree(where, {"spec": spec}, m, i)
@@ -480,7 +1111,6 @@ def compare_graph(ctx, spec, impl, mo):
 
 def gen_damage(rng, spec):
     """A serialised dict of `spec` (in spec order) with at most one defect."""
-    reach = None
     entries = []
     for n in spec["nodes"]:
         e = {"outputs": list(n["outputs"]), "inputs": [[i[0], i[1] if i[2] == D else {"t": rng.choice(["tuple", "list"]), "v": [i[1], i[2]]}] for i in n["inputs"]],
@@ -489,18 +1119,27 @@ def gen_damage(rng, spec):
     x = rng.random()
     what = "intact"
     consumed = [i[1] for n in spec["nodes"] for i in n["inputs"]]
-    if x < 0.35 and consumed:
+    if x < 0.3 and consumed:
         victim = rng.choice(consumed)
         entries = [e for e in entries if e[0] != victim]
         # entries that consumed nothing else stay; the victim's own parents stay
         what = "missing-entry"
-    elif x < 0.7 and consumed:
+    elif x < 0.55 and consumed:
         cands = [(k, j) for k, e in enumerate(entries) for j, i in enumerate(e[1]["inputs"])]
         k, j = rng.choice(cands)
         par = entries[k][1]["inputs"][j][1]
         par = par if isinstance(par, str) else par["v"][0]
         entries[k][1]["inputs"][j][1] = {"t": "tuple", "v": [par, "no_such_output"]}
         what = "missing-output"
+    elif x < 0.85 and consumed:
+        # an input called like a parameter of a function on the call path of deserialise (by introspection)
+        params = pools()[2]
+        cands = [(k, j) for k, e in enumerate(entries) for j, i in enumerate(e[1]["inputs"])]
+        k, j = rng.choice(cands)
+        free = [p for p in params if p not in [i[0] for i in entries[k][1]["inputs"]]]
+        if free:
+            entries[k][1]["inputs"][j][0] = rng.choice(free)
+            what = "input-named-like-a-parameter"
     order = list(range(len(entries)))
     rng.shuffle(order)
     return {"kind": "damage", "what": what, "data": entries, "order": order}
@@ -508,15 +1147,16 @@ def gen_damage(rng, spec):
 
 def run_damage(case):
     from earthkit.workflows.graph import deserialise
+    reg = Reg()
     data = {}
     for k in case["order"]:
         name, e = case["data"][k]
         d = {"outputs": list(e["outputs"]), "inputs": {i[0]: (i[1] if isinstance(i[1], str) else (tuple(i[1]["v"]) if i[1]["t"] == "tuple" else list(i[1]["v"]))) for i in e["inputs"]}}
         if e["payload"] is not None:
-            d["payload"] = untag(e["payload"])
+            d["payload"] = untag(e["payload"], reg)
         data[name] = d
-    out, _ = round_real(None, lambda: deserialise(data), with_eq=False)
-    return out
+    out, _ = round_real(None, lambda: deserialise(data), reg, with_eq=False)
+    return {k: v for k, v in out.items() if k != "msg"}, reg
 
 
 # ----------------------------------------------------------------------------- check
@@ -532,12 +1172,31 @@ def _account(ctx, spec, impl):
     ctx.count("graphs:" + spec["kind"])
     ctx.count("nodes", len(spec["nodes"]))
     consumed = {i[1] for n in spec["nodes"] for i in n["inputs"]}
+    params, init_kw = introspected_names()
+    classes = set()
     for n in spec["nodes"]:
         term = n["name"] not in consumed
         ctx.count("node:" + ("terminal" if term else "inner") + ("-no-outputs" if not n["outputs"] else ("-multi-output" if len(n["outputs"]) > 1 else "-one-output")))
         ctx.count("payload:" + n["payload"]["t"])
+        here = scan(n["payload"], set())
+        if n["payload"]["t"] == "hook":
+            here.add("hook-at-top-level")
+        elif "hook" in here:
+            here.add("hook-nested")
+        if n["payload"]["t"] == "float" and n["payload"]["nan"]:
+            here.add("nan-at-top-level")
+        for c in here:
+            ctx.count("payload-holds:" + c)
+        classes |= here
         for i in n["inputs"]:
             ctx.count("input:" + ("default-output" if i[2] == D else "named-output"))
+            if i[0] in params:
+                ctx.count("input-named-like-parameter:" + i[0])
+    for c in sorted(classes):
+        ctx.count("graphs-with-payload-holding:" + c)
+    for path in ("dict", "json", "file"):
+        if path in impl:
+            ctx.count("%s-roundtrip:%s" % (path, ("ok eq=%s" % impl[path]["eq"]) if impl[path]["ok"] else impl[path]["err"]))
     if spec["kind"] == "dag":
         node_names = {n["name"] for n in spec["nodes"]}
         out_names = {o for n in spec["nodes"] for o in n["outputs"]}
@@ -557,6 +1216,8 @@ def _account(ctx, spec, impl):
             ctx.count("graphs-node-named-like-its-own-output")
         if any("%s.%s" % (i[1], i[2]) in node_names for n in spec["nodes"] for i in n["inputs"]):
             ctx.count("graphs-node-named-parent.output-of-a-reference")
+    if any(n.get("forced") for n in spec["nodes"]):
+        ctx.count("graphs-with-input-forced-to-a-Node.__init__-parameter-name(tie-only)")
     if not spec["nodes"]:
         ctx.count("empty-graph")
     if len(spec["sinks"]) > 1:
@@ -569,7 +1230,17 @@ def _account(ctx, spec, impl):
 
 
 def shrink_spec(spec, pred):
-    """Drop nodes (with everything depending on them) while the failure persists."""
+    """Drop nodes (with everything depending on them), payloads and inputs while the failure persists."""
+    cur = spec
+    for _ in range(3):
+        nxt = _shrink_once(cur, pred)
+        if nxt == cur:
+            break
+        cur = nxt
+    return cur
+
+
+def _shrink_once(spec, pred):
     cur = spec
     changed = True
     while changed:
@@ -591,19 +1262,44 @@ def shrink_spec(spec, pred):
             if nodes and sinks and pred(cand):
                 cur, changed = cand, True
                 break
+    # then simplify what is left: payloads to None, inputs dropped one by one
+    for k in range(len(cur["nodes"])):
+        n = cur["nodes"][k]
+        trials = []
+        if n["payload"]["t"] != "none":
+            trials.append(dict(n, payload={"t": "none"}))
+        trials += [dict(n, inputs=n["inputs"][:j] + n["inputs"][j + 1:]) for j in range(len(n["inputs"]))]
+        for t in trials:
+            base = cur["nodes"][k]
+            t = dict(base, **{f: t[f] for f in ("payload", "inputs") if t[f] != n[f]})
+            if "forced" in t:
+                t["forced"] = [x for x in t["forced"] if x in [i[0] for i in t["inputs"]]]
+            cand = dict(cur, nodes=cur["nodes"][:k] + [t] + cur["nodes"][k + 1:])
+            used = {i[1] for m in cand["nodes"] for i in m["inputs"]}
+            cand["sinks"] = list(cur["sinks"]) + [m["name"] for m in cand["nodes"] if m["name"] not in used and m["name"] not in cur["sinks"]]
+            try:
+                if pred(cand):
+                    cur = cand
+            except Exception:
+                pass
     return cur
 
 
-def _same(fail):
+def _same(sig):
     def pred(spec):
-        f = run_case(spec)[1]
-        return f is not None and f[0] == fail[0]
+        return any(f[0] == sig for f in run_case(spec)[1])
     return pred
 
 
 def _load_corpus():
     from ekw.core import CORPUS_DIR
-    return [json.load(open(f))["spec"] for f in sorted(glob.glob(str(CORPUS_DIR / "C12_*.json")))]
+    specs = []
+    for f in sorted(glob.glob(str(CORPUS_DIR / "C12_*.json"))):
+        spec = json.load(open(f))["spec"]
+        for n in spec["nodes"]:
+            n["payload"] = norm_tag(n["payload"])
+        specs.append(spec)
+    return specs
 
 
 def _cases(ctx, n_dag, n_fluent, n_damage, maxn):
@@ -611,91 +1307,115 @@ def _cases(ctx, n_dag, n_fluent, n_damage, maxn):
     for _ in range(n_dag):
         specs.append(gen_spec(ctx.rng, maxn))
     graphs = [None] * len(specs)
+    regs = [None] * len(specs)
     for _ in range(n_fluent):
         desc = gen_fluent(ctx.rng)
         try:
             g, applied = build_fluent(desc)
-            spec = spec_of_graph(g, desc)
+            reg = Reg()
+            spec = spec_of_graph(g, desc, reg)
             for a in applied:
                 ctx.count("fluent-op:" + a)
         except Exception as e:
             ctx.count("fluent-program-rejected:" + type(e).__name__)
             continue
+        if spec["dups"]:                              # outside the property's quantifier (C14's matter)
+            ctx.count("fluent-graph-with-duplicate-names-skipped")
+            continue
         specs.append(spec)
         graphs.append(g)
-    damages = [gen_damage(ctx.rng, gen_spec(ctx.rng, 7)) for _ in range(n_damage)]
-    return specs, graphs, damages
+        regs.append(reg)
+    damages = [gen_damage(ctx.rng, gen_spec(ctx.rng, 7, plain=ctx.rng.random() < 0.7, forced_ok=False)) for _ in range(n_damage)]   # at most ONE defect
+    return specs, graphs, regs, damages
 
 
-def _run(ctx, specs, graphs, damages, compare=True):
+def _fluent_loss(ctx, g):
+    """what a deserialised fluent graph no longer has (measured; the property names nodes, outputs, inputs, payloads only)"""
+    from earthkit.workflows.graph import deserialise, serialise
+    try:
+        a, _, _ = walk(g.sinks)
+        b, _, _ = walk(deserialise(serialise(g)).sinks)
+    except Exception:
+        return
+    for name, ra in a.items():
+        if name in b and b[name]["type"] is not ra["type"]:
+            ctx.count("fluent-node-class-not-restored")
+
+
+def _run(ctx, specs, graphs, regs, damages, compare=True):
     from ekw.core import lean_drive
     impls = []
     shrunk = set()
-    for spec, g in zip(specs, graphs):
-        impl, fail = run_case(spec, g)
+    regs = list(regs)
+    for k, (spec, g) in enumerate(zip(specs, graphs)):
+        impl, fails, regs[k] = run_case(spec, g, regs[k])
         impls.append(impl)
         _account(ctx, spec, impl)
+        if g is not None and len(impls) % 10 == 0:
+            _fluent_loss(ctx, g)
         ctx.case({"kind": spec["kind"], "n_nodes": len(spec["nodes"]), "sinks": spec["sinks"], "desc": spec.get("desc"),
                   "nodes": [[n["name"], n["outputs"], n["inputs"]] for n in spec["nodes"][:8]]}, nontrivial=_nontrivial(spec))
-        if fail:
-            key = json.dumps(fail[0], sort_keys=True)
+        for sig, what in fails:
+            key = json.dumps(sig, sort_keys=True)
             case = {"spec": spec}
-            what = fail[1]
             if spec["kind"] == "dag" and key not in shrunk:
                 shrunk.add(key)
-                small = shrink_spec(spec, _same(fail))
-                f2 = run_case(small)[1]
-                case, what = {"spec": small}, (f2 or fail)[1]
-            ctx.violation(fail[0], case, what)
+                small = shrink_spec(spec, _same(sig))
+                f2 = [f for f in run_case(small)[1] if f[0] == sig]
+                case, what = {"spec": small}, (f2[0][1] if f2 else what)
+            ctx.violation(sig, case, what)
     dam_out = []
     for c in damages:
         dam_out.append(run_damage(c))
         ctx.count("damaged-dict:" + c["what"])
-        ctx.count("damaged-dict-result:" + (dam_out[-1]["err"] if not dam_out[-1]["ok"] else "ok"))
+        ctx.count("damaged-dict-result:" + (dam_out[-1][0]["err"] if not dam_out[-1][0]["ok"] else "ok"))
     if not compare:
         return
     lines = [model_line(s) for s in specs] + [json.dumps({"op": "deser", "data": c["data"]}) for c in damages]
     res = [json.loads(x) for x in lean_drive("C12", lines)]
-    for spec, impl, mo in zip(specs, impls, res):
+    for spec, impl, mo, reg in zip(specs, impls, res, regs):
         ctx.traces += 1
-        compare_graph(ctx, spec, impl, mo)
-    for c, out, mo in zip(damages, dam_out, res[len(specs):]):
+        compare_graph(ctx, spec, impl, mo, reg)
+    for c, (out, reg), mo in zip(damages, dam_out, res[len(specs):]):
         ctx.traces += 1
-        m = canon_round_model(mo["deser"], with_eq=False)
+        m = canon_round_model(mo["deser"], reg, with_eq=False)
         if m != out:
             ctx.disagree("deserialise-damaged", {"damage": c}, m, out)
 
 
 def correspond(ctx):
-    specs, graphs, damages = _cases(ctx, ctx.budget(400, 15000), ctx.budget(60, 1500), ctx.budget(120, 3000), ctx.budget(10, 14))
-    _run(ctx, specs, graphs, damages)
+    specs, graphs, regs, damages = _cases(ctx, ctx.budget(400, 15000), ctx.budget(60, 1500), ctx.budget(160, 4000), ctx.budget(10, 14))
+    _run(ctx, specs, graphs, regs, damages)
 
 
 def oracle_only(ctx):
-    specs, graphs, damages = _cases(ctx, ctx.budget(600, 15000), ctx.budget(60, 1500), 0, 12)
-    _run(ctx, specs, graphs, [], compare=False)
+    specs, graphs, regs, damages = _cases(ctx, ctx.budget(600, 15000), ctx.budget(60, 1500), 0, 12)
+    _run(ctx, specs, graphs, regs, [], compare=False)
 
 
 def search(ctx, why):
     if ctx.violations:
         return
     specs = [d["case"]["spec"] for d in ctx.disagreements if isinstance(d.get("case"), dict) and "spec" in d["case"] and d["case"]["spec"]["kind"] == "dag"][:100]
-    more, graphs, _ = _cases(ctx, ctx.budget(1500, 30000), ctx.budget(100, 2000), 0, 14)
-    _run(ctx, specs + more, [None] * len(specs) + graphs, [], compare=False)
+    more, graphs, regs, _ = _cases(ctx, ctx.budget(1500, 30000), ctx.budget(100, 2000), 0, 14)
+    _run(ctx, specs + more, [None] * len(specs) + graphs, [None] * len(specs) + regs, [], compare=False)
 
 
 def replay(payload):
     spec = payload["case"]["spec"]
-    g = None
+    g = reg = None
     if spec["kind"] == "fluent":
         g, applied = build_fluent(spec["desc"])
+        reg = Reg()
+        spec = spec_of_graph(g, spec["desc"], reg)
         print("fluent program", spec["desc"], "applied", applied)
     for n in spec["nodes"]:
+        n["payload"] = norm_tag(n["payload"])
         print("node", n["name"], "outputs", n["outputs"], "inputs", n["inputs"], "payload", n["payload"])
     print("sinks", spec["sinks"])
-    impl, fail = run_case(spec, g)
-    for k in ("dict", "json", "file"):
+    impl, fails, _ = run_case(spec, g, reg)
+    for k in ("dict", "json", "file", "dict_inv"):
         if k in impl:
             print(k, "->", json.dumps(impl[k])[:400])
-    print("oracle:", fail)
-    return 1 if fail else 0
+    print("oracle:", fails)
+    return 1 if fails else 0
